@@ -145,6 +145,37 @@ Theorem mw_start_resolves mbinding hr :
   mw_resolve mbinding hr = (if hr then HTTP_REDIRECT else HTTP_POST).
 Proof. intros ->. reflexivity. Qed.
 
+(* ================= where the messages are sent ================= *)
+(* the location used for a binding is the Location of an endpoint of the IdP's
+   list with exactly that binding — the first such — or "" when there is none *)
+Theorem binding_location_spec b eps :
+  (exists pre rl post,
+     eps = (pre ++ (b, binding_location b eps, rl) :: post)%list /\
+     (forall e, In e pre -> fst (fst e) <> b)) \/
+  (binding_location b eps = EmptyString /\ forall e, In e eps -> fst (fst e) <> b).
+Proof.
+  unfold binding_location. induction eps as [|[[b' loc] rl] r IH].
+  - right. split; [reflexivity|intros e []].
+  - cbn [first_endpoint]. destruct (seqb b' b) eqn:E.
+    + apply seqb_eq in E. subst b'. left. exists [], rl, r. split; [reflexivity|intros e []].
+    + apply seqb_neq in E. destruct IH as [(pre & rl' & post & Heq & Hpre)|[Hn Hall]].
+      * left. exists ((b', loc, rl) :: pre), rl', post. split.
+        -- cbn. now rewrite <- Heq.
+        -- intros e [<-|H]; [exact E|now apply Hpre].
+      * right. split; [exact Hn|]. intros e [<-|H]; [exact E|now apply Hall].
+Qed.
+
+(* the model's target and Destination always satisfy the destination monitor *)
+Theorem destination_meets_spec eps k b :
+  let dest := binding_location (binding_urn (binding_of b)) eps in
+  blcase_spec {| bl_eps := eps; bl_kind := k; bl_binding := b;
+                 bl_target := target_of (binding_of b) dest; bl_destination := opt_nonempty dest |} = true.
+Proof.
+  cbv zeta. unfold blcase_spec, binding_location. cbn [bl_eps bl_kind bl_binding bl_target bl_destination].
+  assert (forall a, opt_s_eqb a a = true) as R by (intros [x|]; cbn; [apply seqb_refl|reflexivity]).
+  destruct (first_endpoint (binding_urn (binding_of b)) eps) as [[[b' loc] rl]|]; now rewrite seqb_refl, R.
+Qed.
+
 (* ================= the hand-assembled AuthnRequest query ================= *)
 Section AuthnQuery.
   Variable sign : string -> string.
